@@ -60,6 +60,11 @@ CLAIMS = {
         "Trusted: symx interception layer, z3; stubs: scipy ttest_1samp and biweight_midvariance return fresh values, scipy sem is modelled as sqrt(var/n), norm.cdf is an uninterpreted Phi. Bootstrap resample indices are concrete (fixed seed) with concrete unequal weights.",
         "DESIGN.md 4/C17",
     ),
+    "C18": (
+        "The real read_vcf (sample / tumour-normal selection incl. PEDIGREE, record parsing, genotype and depth extraction, depth and somatic filters) runs behind tabio.read on stub records whose start, DP, AD counts, END and min_depth are symbolic and whose allele kind, SOMATIC flag, genotype and missing keys are solver-chosen, in both file orders: z3 proves per path the selected samples, that a record is kept exactly when it passes the filters, and each row's 0-based start, end, depth, alt count, alt_freq * depth = count, zygosity, somatic flag and normal columns, sorted with values attached to their own coordinates. load_het_snps keeps exactly the germline-heterozygous records; baf_by_ranges gives the median of the mirrored heterozygous frequencies inside each range (NaN where none; above_half None/True/False); TumorBoost and purity rescaling follow their formulas for symbolic frequencies.",
+        "Trusted: symx interception layer, z3; pysam.VariantFile is a stub (header, records with the attributes the reader uses: htslib's own parsing is outside). Multi-allelic records are outside the statement.",
+        "DESIGN.md 4/C18",
+    ),
     "C19": (
         "The real descriptives (weighted_median, MAD, IQR, gapper, Qn, weighted MAD/std, on_array/on_weighted_array NaN handling; biweight location/midvariance only for n <= 2 and constant data) and smoothers (rolling_median through a window model of Series.rolling, unweighted kaiser, weighted savgol via convolve_weighted, _width2wing/_pad_array/check_inputs) run on symbolic vectors of length 1..4 (thorough up to 6); z3 proves per path non-negativity, zero on constants, shift invariance, scale equivariance (concrete factors), equality with independent closed-form definitions (sorting networks of If-terms), the half-weight clauses of the weighted median and its equality with the ordinary median for equal weights, one finite value per input, range and constant reproduction of the smoothers, and rolling median = median of the mirrored window.",
         "Trusted: symx interception layer (rolling/convolve/percentile models are compared with numpy/pandas by setup.sh's selfcheck), z3; sqrt uninterpreted. Not covered: biweight numerics beyond n = 2, modal_location, unweighted savgol (compiled scipy); linear filters carry a 1e-9 slack.",
